@@ -4,7 +4,7 @@ import "strings"
 
 // key lengths around the 48-character fragment and 255-character name boundaries
 // (base64 of n bytes has ceil(4n/3) characters: 191 bytes -> 255, 192 bytes -> 256)
-var vxKeyLens = [...]int{0, 1, 2, 3, 35, 36, 37, 190, 191, 192, 193, 216, 228, 252}
+var vxKeyLens = [...]int{0, 1, 2, 3, 35, 36, 37, 190, 191, 192, 193, 211, 216, 228, 252, 282}
 
 // vxKey: a key of length n whose first 40 and last 3 bytes are symbolic (all byte
 // values) and whose middle is a fixed filler.
@@ -17,8 +17,20 @@ func vxKey(p string, n int) string {
 
 // VxC14_NameRoundTrip: the key is recovered from its file name, for keys of every
 // boundary length and arbitrary bytes.
+// vxKeyLensDense: every length whose encoding is around or beyond the 255-character
+// limit up to six/seven fragments (186..300: encoded 248..400, including the lengths
+// whose encoding is an exact multiple of the fragment step), plus the small boundaries.
+func vxKeyLensDense() []int {
+	ls := []int{0, 1, 2, 3, 35, 36, 37, 141, 423, 705}
+	for n := 186; n <= 300; n++ {
+		ls = append(ls, n)
+	}
+	return ls
+}
+
 func VxC14_NameRoundTrip() {
-	n := vxKeyLens[vxChoice("len", len(vxKeyLens))]
+	ls := vxKeyLensDense()
+	n := ls[vxChoice("len", len(ls))]
 	k := vxKey("k", n)
 	name := fragmentFileName(k)
 	back, err := fragmentedFileNameToKey(name)
